@@ -217,6 +217,74 @@ def targets():
     mk("kaiming_uniform_", "uniform_", lambda b, g, fi, fo, fan: b * b * _real(fan) == g * g * 3, modes=("fan_in", "fan_out", "fan_avg"))
     mk("kaiming_normal_", "normal_", lambda sd, g, fi, fo, fan: sd * sd * _real(fan) == g * g, modes=("fan_in", "fan_out", "fan_avg"))
 
+    # ---- the five basic fillers: what is drawn, where it is stored, and the frame (identity, shape, dtype, requires_grad flag and every other attribute of the tensor untouched)
+    def fill_executor():
+        ex = base_executor()
+
+        def array(s, shape, dtype, gen):
+            o = Obj("NdArray")
+            s.attrs(o).update(shape=shape, dtype=dtype, gen=gen)
+            return o
+
+        def gen_model(name, pnames):
+            def m(ex_, s, args, kw):
+                vals = list(args)
+                for k in pnames[len(vals):]:
+                    vals.append(kw.get(k))
+                shape = vals[len(pnames) - 1]
+                return array(s, shape, "float64", (name,) + tuple(vals[:len(pnames) - 1]))
+            return m
+        ex.models["np.random.uniform"] = gen_model("uniform", ("low", "high", "size"))
+        ex.models["np.random.normal"] = gen_model("normal", ("loc", "scale", "size"))
+        ex.models["np.full"] = lambda ex_, s, args, kw: array(s, args[0] if args else kw.get("shape"), "default", ("full", args[1] if len(args) > 1 else kw.get("fill_value")))
+        ex.models["np.ones"] = lambda ex_, s, args, kw: array(s, args[0] if args else kw.get("shape"), kw.get("dtype", "float64"), ("full", 1))
+        ex.models["np.zeros"] = lambda ex_, s, args, kw: array(s, args[0] if args else kw.get("shape"), kw.get("dtype", "float64"), ("full", 0))
+
+        def astype(ex_, s, args, kw):
+            a = s.attrs(args[0])
+            return array(s, a["shape"], args[1] if len(args) > 1 else kw.get("dtype"), a["gen"])
+        ex.models["NdArray.astype"] = astype
+        return ex
+
+    def mk_fill(fn, nargs, gen_of):
+        def setup(ex):
+            s = State()
+            t, dims = tensor_obj(s, 2)
+            a = s.attrs(t)
+            dt = Opaque("dtype")
+            old = Obj("NdArray")
+            s.attrs(old).update(shape=dims, dtype=dt, gen=("old",))
+            a.update(dtype=dt, data=old, _requires_grad=z3.Bool("requires_grad"), _grad=Opaque("grad"), _grad_fn=None, _children=(), _retain_grad=z3.Bool("retain"),
+                     _name=Opaque("name"), device=Opaque("device"), _operation=None, _initialized=True)
+            extra = [z3.Real("arg%d" % i) for i in range(nargs)]
+            return s, [t] + extra, {"t": t, "dims": dims, "dtype": dt, "args": extra, "before": dict(a)}
+
+        def ens(ctx, s, out):
+            if isinstance(out, Raised):
+                return [("completes", False)]
+            a = s.attrs(ctx["t"])
+            cl = [("returns_the_given_tensor", out.value is ctx["t"])]
+            frame = set(a) == set(ctx["before"]) and all(a[k] is ctx["before"][k] for k in a if k != "data")
+            cl.append(("writes_nothing_but_the_data_of_the_tensor(flag_grad_name_device_kept)", frame))
+            d = a.get("data")
+            if not (isinstance(d, Obj) and d.cls == "NdArray" and d is not ctx["before"]["data"]):
+                return cl + [("stores_freshly_drawn_values", False)]
+            da = s.attrs(d)
+            sh = da["shape"]
+            cl.append(("keeps_the_shape", isinstance(sh, tuple) and len(sh) == len(ctx["dims"]) and all(x is y for x, y in zip(sh, ctx["dims"]))))
+            cl.append(("keeps_the_dtype", da["dtype"] is ctx["dtype"]))
+            want = gen_of(ctx["args"])
+            got = da["gen"]
+            same = len(got) == len(want) and got[0] == want[0] and all((g is w) if z3.is_expr(w) else (g == w and type(g) is type(w)) for g, w in zip(got[1:], want[1:]))
+            cl.append(("values_drawn_as_documented", same))
+            return cl
+        ts.append(Target(NAME + fn, INIT, fn, setup, ens, executor=fill_executor, key={"initialiser": fn}))
+    mk_fill("uniform_", 2, lambda A: ("uniform", A[0], A[1]))
+    mk_fill("normal_", 2, lambda A: ("normal", A[0], A[1]))
+    mk_fill("constant_", 1, lambda A: ("full", A[0]))
+    mk_fill("ones_", 0, lambda A: ("full", 1))
+    mk_fill("zeros_", 0, lambda A: ("full", 0))
+
     # ---- layers: reset_parameters
     for cls in ("Linear", "Conv1d", "Conv2d"):
         for has_bias in (True, False):
@@ -382,6 +450,46 @@ def runtime_part(run, tier, seed):
                                   "%s.reset_parameters() inside %s: parameters before %s, after %s" % (type(L).__name__, cname, [(f, sh, str(d_)) for _, f, sh, d_ in before],
                                                                                                   [(q.requires_grad, q.shape, str(q.data.dtype)) for q in after]),
                                   key={"layer": type(L).__name__, "context": cname}, replay={"layer": type(L).__name__, "context": cname})
+        # HISTORY of the process: a fill gives the tensor storage of its own -- updating an earlier filled tensor in place (what every optimizer step does) must not
+        # show in a later fill with the same shape / value / dtype, nor in the earlier tensor when the later one is updated
+        for (name, fn), dt in itertools.product(every, (np.float32, np.float64)):
+            t1 = Tensor(np.full((3, 4), 7.0, dtype=dt))
+            fn(t1)
+            first = t1.data.copy()
+            t1.data -= 0.5
+            t1.data *= 3.0
+            t2 = Tensor(np.full((3, 4), 7.0, dtype=dt))
+            fn(t2)
+            run.rt(("history", name, np.dtype(dt).name))
+            exact = {"constant_": 3.5, "ones_": 1.0, "zeros_": 0.0}.get(name)
+            bad = []
+            if np.shares_memory(t1.data, t2.data):
+                bad.append("the two filled tensors share memory")
+            if exact is not None and not np.all(t2.data == dt(exact)):
+                bad.append("the second tensor holds %s instead of %s" % (np.unique(t2.data).tolist(), exact))
+            before = t1.data.copy()
+            t2.data += 1.0
+            if not np.array_equal(t1.data, before):
+                bad.append("updating the second tensor in place changed the first")
+            if not np.array_equal(t1.data, (first - dt(0.5)) * dt(3.0)):
+                bad.append("the first tensor does not hold its own updated values")
+            if bad:
+                run.violation(NAME + name + ".fills_the_given_tensor_with_storage_of_its_own", "%s twice on equal-shaped %s tensors with an in-place update in between: %s" % (name, np.dtype(dt).name, "; ".join(bad)),
+                              key={"initialiser": name, "clause": "history independence"}, replay={"initialiser": name, "dtype": np.dtype(dt).name})
+        for mk in (lambda: nn.BatchNorm1d(4), lambda: nn.Linear(3, 2), lambda: nn.Conv1d(2, 2, 2)):
+            L1 = mk()
+            for p_ in L1.parameters():
+                p_.data -= 0.25
+            L2 = mk()
+            run.rt(("history-layer", type(L2).__name__))
+            if isinstance(L2, nn.BatchNorm1d):
+                ok = np.all(L2.weight.data == 1) and np.all(L2.bias.data == 0) and np.all(L2.running_mean.data == 0) and np.all(L2.running_var.data == 1)
+            else:
+                ok = True
+            ok = ok and not any(np.shares_memory(a.data, b.data) for a, b in zip(L1.parameters(), L2.parameters()))
+            if not ok:
+                run.violation("synapgrad.nn.layers.%s.reset_parameters.fills_with_storage_of_its_own" % type(L2).__name__, "a second %s built after an in-place update of the first one's parameters "
+                              "does not start from its documented initial values / shares storage with the first" % type(L2).__name__, key={"layer": type(L2).__name__, "clause": "history independence"}, replay={})
         # sample statistics (sanity check of the assumed NumPy law), 10^5 draws
         t = Tensor(np.zeros((200, 500), dtype=np.float64))
         n = t.data.size
